@@ -90,8 +90,8 @@ pub fn budget(prop: &str) -> Budget {
 /// Address-space cap of the worker processes (bytes).
 pub fn mem_cap(prop: &str) -> u64 {
     match prop {
-        "C19" => 1 << 30,
-        // address space is not memory: elsewhere only the resident-set guard of the worker applies
+        // address space is not memory: only the resident-set guard of the worker applies process-wide; the autoSql
+        // parser batches of C19 put a 1 GiB address-space cap around the parser calls themselves (textsim::AsCap)
         _ => 0,
     }
 }
